@@ -114,10 +114,10 @@ def expected(req, host, port):
     return acc
 
 
-def run_one(req, host, port, method_reply=b'\x05\x00'):
+def run_one(req, host, port, method_reply=b'\x05\x00', reset=True):
     viol = []
     log = []
-    with World() as w:
+    with World(reset=reset) as w:
         ep = FakeSocksEndpoint(w)
         fac = AppFactory(log)
         started = True
@@ -252,6 +252,7 @@ def tasks(tier, seed):
     out.append(('ipv4',))
     out.append(('ipv6',))
     out.append(('methods',))
+    out.append(('sequence',))
     return out
 
 
@@ -306,6 +307,22 @@ def run_task(param, acc):
                     r = run_one(req, host, port)
                     record(acc, (req, host, port), r)
         acc.sample(dict(req=req, host=host, log=r['log']), limit=1)
+    elif param[0] == 'sequence':
+        # several requests one after the other in one process (what an earlier request leaves behind must not show in a later one)
+        names = ['a', 'example.com', 'x' * 40, 'b.example', '10.1.2.3', '2001:db8::5']
+        for req in ('CONNECT', 'RESOLVE', 'RESOLVE_PTR'):
+            for h1, h2 in itertools.permutations(names, 2):
+                if req == 'CONNECT' and ':' in h2:
+                    continue        # (CONNECT to an IPv6 literal is the known finding, whatever came before)
+                for p1, p2 in ((80, 65535), (40000, 1)):
+                    run_one(req, h1, p1 if req == 'CONNECT' else 0, reset=True)
+                    r = run_one(req, h2, p2 if req == 'CONNECT' else 0, reset=False)
+                    o = r['obs']
+                    acc.execution(key=('seq', req, h1, h2, p1), outcome='seq/' + str(o[0]), nontrivial=True, steps=4)
+                    for clause, feat, detail in r['viol']:
+                        acc.violation('%s/%s/after-an-earlier-request' % (clause, feat), detail + ' [after %s %s:%d]' % (req, h1, p1),
+                                      dict(req=req, host=h2, port=p2 if req == 'CONNECT' else 0, method=None, earlier=[req, h1, p1 if req == 'CONNECT' else 0]),
+                                      cost=50 + len(h1) + len(h2))
     else:
         for mr in (b'\x05\x02', b'\x05\xff', b'\x04\x00', b'\x05\x01', b'\x00\x00'):
             for req, host in (('CONNECT', 'example.com'), ('CONNECT', '1.2.3.4'), ('RESOLVE', 'example.com'), ('RESOLVE_PTR', '1.2.3.4')):
@@ -318,6 +335,10 @@ def replay(p):
         r = run_buffered(p['req'], p['host'], p['port'], p['fail_at'])
         return dict(violations=[dict(signature='%s/%s' % (c, f), what=d) for c, f, d in r['viol']], log=r['log'])
     mr = bytes.fromhex(p['method']) if p.get('method') else b'\x05\x00'
+    if p.get('earlier'):
+        run_one(*p['earlier'], reset=True)
+        r = run_one(p['req'], p['host'], p['port'], mr, reset=False)
+        return dict(violations=[dict(signature='%s/%s/after-an-earlier-request' % (c, f), what=d) for c, f, d in r['viol']], log=r['log'])
     r = run_one(p['req'], p['host'], p['port'], mr)
     return dict(violations=[dict(signature='%s/%s' % (c, f), what=d) for c, f, d in r['viol']], log=r['log'])
 
